@@ -355,6 +355,15 @@ type items []ui.Text
 func (it items) Show(i int) ui.Text { return it[i] }
 func (it items) Len() int           { return len(it) }
 
+// suffixed appends the aspect to every class of a "|"-joined class list.
+func suffixed(class, suffix string) string {
+	parts := strings.Split(class, "|")
+	for i := range parts {
+		parts[i] += suffix
+	}
+	return strings.Join(parts, "|")
+}
+
 func renderWidget(c *reg.Ctx, kind, coqKind, class, in string, width, height int, render func() *term.Buffer) {
 	var buf *term.Buffer
 	var panicked any
@@ -365,7 +374,7 @@ func renderWidget(c *reg.Ctx, kind, coqKind, class, in string, width, height int
 	if panicked != nil {
 		c.Count(kind + "/panic")
 		c.Emit(reg.Case{Direct: fmt.Sprintf("%s.Render(%d, %d) panicked: %v", kind, width, height, panicked),
-			Desc: desc{Kind: kind, In: in, Arg: fmt.Sprintf("%dx%d", width, height)}, Key: in, Class: class + "-panic"})
+			Desc: desc{Kind: kind, In: in, Arg: fmt.Sprintf("%dx%d", width, height)}, Key: in, Class: suffixed(class, "-panic")})
 		return
 	}
 	var lines [][]term.Cell
@@ -378,9 +387,9 @@ func renderWidget(c *reg.Ctx, kind, coqKind, class, in string, width, height int
 		shown = showBuf(buf)
 	}
 	for _, asp := range []string{"AWidth", "AHeight"} {
-		cl := class + "-width"
+		cl := suffixed(class, "-width")
 		if asp == "AHeight" {
-			cl = class + "-height"
+			cl = suffixed(class, "-height")
 		}
 		c.Count(cl)
 		c.Emit(reg.Case{
@@ -491,22 +500,28 @@ func listBoxWidget(c *reg.Ctx) {
 		ctl = ctl || hasControl(textStr(t))
 		zeroWidth = zeroWidth || wcwidth.Of(textStr(t)) == 0
 	}
-	// input classes, most specific defect-prone trait first
-	class := "listbox-vertical"
-	switch {
-	case horizontal && n > 0 && (sel < 0 || sel >= n):
-		class = "listbox-horizontal-selection-out-of-range"
-	case extend && ((horizontal && (padding >= 1 || zeroWidth)) || width <= padding+1):
+	// All applicable input classes, joined by "|" (every predicate is evaluated
+	// on the input independently, so that a recorded class is never hidden by
+	// another trait of the same input).
+	classes := []string{"listbox-vertical"}
+	if horizontal {
+		classes = []string{"listbox-horizontal"}
+	}
+	if ctl {
+		classes = append(classes, "listbox-ctl") // known: control characters are 0 wide for wcwidth, 2 on screen
+	}
+	if horizontal && n > 0 && (sel < 0 || sel >= n) {
+		classes = append(classes, "listbox-horizontal-selection-out-of-range")
+	}
+	if extend && ((horizontal && (padding >= 1 || zeroWidth)) || width <= padding+1) {
 		// ExtendStyle with possibly no room for the right spacing: a column as
 		// wide as the padding (cropped last column, tiny width) or of zero width
-		class = "listbox-extendstyle-empty-spacing"
-	case ctl:
-		class = "listbox-ctl"
-	case horizontal:
-		class = "listbox-horizontal"
-	case multiline && totalLines > height:
-		class = "listbox-vertical-multiline-overflow"
+		classes = append(classes, "listbox-extendstyle-empty-spacing")
 	}
+	if !horizontal && multiline && totalLines > height {
+		classes = append(classes, "listbox-vertical-multiline-overflow")
+	}
+	class := strings.Join(classes, "|")
 	in := fmt.Sprintf("horizontal=%v padding=%d extend=%v selected=%d first=%d items=%s", horizontal, padding, extend, sel, first, strings.Join(shown, ","))
 	renderWidget(c, "ListBox", "WListBox", class, in, width, height, func() *term.Buffer { return w.Render(width, height) })
 }
@@ -527,7 +542,7 @@ func textViewWidget(c *reg.Ctx) {
 	in := fmt.Sprintf("scrollable=%v first=%d lines=%q", scrollable, first, lines)
 	class := "textview"
 	if hasControl(strings.Join(lines, "")) {
-		class = "textview-ctl"
+		class = "textview|textview-ctl"
 	}
 	renderWidget(c, "TextView", "WTextView", class, in, width, height, func() *term.Buffer { return w.Render(width, height) })
 }
